@@ -481,11 +481,51 @@ func ruleRecoverTotal(p *core.Program) []core.Obligation {
 				obs = append(obs, core.Ob(rule, key, p.Pos(ins.Pos()), core.FuncName(fn), core.Undecided, "the recovered value is not compared with nil"))
 				return
 			}
-			reports := func(b *ssa.BasicBlock) bool {
+			var reports func(b *ssa.BasicBlock) bool
+			// alwaysReports: every path through the helper reports (sends, stores into shared state, panics)
+			var alwaysReports func(h *ssa.Function, depth int) bool
+			alwaysReports = func(h *ssa.Function, depth int) bool {
+				if h == nil || h.Blocks == nil || !p.InRepo(h) || depth > 2 {
+					return false
+				}
+				seenB := map[*ssa.BasicBlock]bool{}
+				ok := true
+				var walk func(b *ssa.BasicBlock)
+				walk = func(b *ssa.BasicBlock) {
+					if seenB[b] || !ok {
+						return
+					}
+					seenB[b] = true
+					if reports(b) {
+						return
+					}
+					if len(b.Succs) == 0 {
+						ok = false
+						return
+					}
+					for _, s := range b.Succs {
+						walk(s)
+					}
+				}
+				walk(h.Blocks[0])
+				return ok
+			}
+			depthNow := 0
+			reports = func(b *ssa.BasicBlock) bool {
 				for _, x := range b.Instrs {
 					switch s := x.(type) {
 					case *ssa.Send:
 						return true
+					case *ssa.Call:
+						// a helper of the repository that reports on every path (c.sendError(err))
+						if callee := s.Call.StaticCallee(); callee != nil && p.InRepo(callee) && depthNow < 2 {
+							depthNow++
+							r := alwaysReports(callee, depthNow)
+							depthNow--
+							if r {
+								return true
+							}
+						}
 					case *ssa.Store:
 						if a, isAlloc := s.Addr.(*ssa.Alloc); !isAlloc || a.Heap {
 							if _, isLocalField := s.Addr.(*ssa.FieldAddr); isLocalField {
